@@ -67,6 +67,8 @@ def tasks(tier):
                     big.append((tuple(sorted(p * a + r * b, reverse=True)), Bb, a + b))
         for ch in spaces.chunked(big, 40):
             ts.append(("planted-big", ch, None))
+    for ch in spaces.chunked(scopes.count_sweep_cover(tier), 30):
+        ts.append(("count-sweep", ch, None))
     ts.append(("published", published(), None))
     return ts
 
